@@ -35,8 +35,8 @@ var Check = &ev.Check{
 	ID:    "C13",
 	Level: "fault_enumeration",
 	Rule: "base messages (<=64 bytes): struct-wrapped C02 depth-1/2 container values, valid plugin/api messages (HandshakeResponse, GenerateServiceRequest/Response, Service), each bare, in a strict and a legacy envelope, and framed; " +
-		"fault = the 4 bytes at every offset (a superset of every position where the format carries a length/count) set to each of {2^16, 2^20+1, 2^24, 2^31-1} (2^31-1 only for (API, position kind) classes that stayed within bounds at 2^24, so that violating classes are found without killing the worker); " +
-		"x 14 decoding APIs (Decode+force, Decode+EvaluateValue, ReadValue, primitive stream walk, Skip seek/stream, DecodeEnveloped, ReadEnvelopeBegin, DecodeRequest, ReadRequest, frame.Reader.Read, generated FromWire(Decode) and generated Decode for 4 plugin/api types). " +
+		"fault = the 4 bytes at every offset (a superset of every position where the format carries a length/count) set to each of {2^16, 2^20+1, 2^24, 2^27, 2^28, 2^28+1, 2^29, 2^29+1, 2^30, 2^30+1, 2^31-1} (values above 2^24 only for (API, position kind) classes that stayed within bounds at 2^24, so that violating classes are found without killing the worker; 2^28..2^30 are where count*width wraps 32 bits); " +
+		"x 15 decoding APIs (Decode+force, Decode+wire.*ToSlice, Decode+EvaluateValue, ReadValue, primitive stream walk, Skip seek/stream, DecodeEnveloped, ReadEnvelopeBegin, DecodeRequest, ReadRequest, frame.Reader.Read, generated FromWire(Decode) and generated Decode for 4 plugin/api types). " +
 		"Oracle per call: TotalAlloc delta <= 12 MiB + 64*N and reader calls <= 16 + 4*N. A case is (message, offset, magnitude); non-trivial = the mutated window overlaps a real length/count field of the reference encoding.",
 	Run:          run,
 	Budget:       func(t string) time.Duration { return map[string]time.Duration{"quick": 4 * time.Minute, "thorough": 20 * time.Minute}[t] },
@@ -111,6 +111,25 @@ var apis = []apiFn{
 		v, err := binary.Default.Decode(ra, wire.TStruct)
 		if err == nil {
 			wire.EvaluateValue(v)
+		}
+		return ra.calls
+	}},
+	{"Decode+ToSlice", func(msg []byte) int {
+		// forces the top-level containers with the product's own helpers,
+		// which trust Size()
+		ra := &countingReaderAt{r: bytes.NewReader(msg)}
+		v, err := binary.Default.Decode(ra, wire.TStruct)
+		if err == nil {
+			for _, f := range v.GetStruct().Fields {
+				switch f.Value.Type() {
+				case wire.TList:
+					wire.ValueListToSlice(f.Value.GetList())
+				case wire.TSet:
+					wire.ValueListToSlice(f.Value.GetSet())
+				case wire.TMap:
+					wire.MapItemListToSlice(f.Value.GetMap())
+				}
+			}
 		}
 		return ra.calls
 	}},
@@ -227,7 +246,7 @@ func apiValues() map[string]tbin.Value {
 
 func bases(thorough bool) []base {
 	var out []base
-	codec := []string{"Decode+force", "Decode+EvaluateValue", "ReadValue", "stream-walk", "Skip(seek)", "Skip(stream)", "DecodeRequest", "ReadRequest"}
+	codec := []string{"Decode+force", "Decode+ToSlice", "Decode+EvaluateValue", "ReadValue", "stream-walk", "Skip(seek)", "Skip(stream)", "DecodeRequest", "ReadRequest"}
 	addAll := func(name string, v tbin.Value, extra []string) {
 		b := tbin.Encode(v)
 		if len(b) > 64 && extra == nil {
@@ -289,7 +308,12 @@ func bases(thorough bool) []base {
 	return out
 }
 
-var magnitudes = []uint32{1 << 16, 1<<20 + 1, 1 << 24, 1<<31 - 1}
+// magnitudes: large counts, plus the counts at which count*width wraps around
+// 32 bits for element widths 2..16 (2^28..2^30 and their successors).
+var magnitudes = []uint32{1 << 16, 1<<20 + 1, 1 << 24, 1 << 27, 1 << 28, 1<<28 + 1, 1 << 29, 1<<29 + 1, 1 << 30, 1<<30 + 1, 1<<31 - 1}
+
+// survivable is the largest magnitude that is tried unconditionally.
+const survivable = 1 << 24
 
 func posKind(marks []tbin.Mark, off int) (string, bool) {
 	for _, m := range marks {
@@ -386,7 +410,7 @@ func measure(a apiFn, msg []byte, ms *runtime.MemStats) (delta uint64, reads int
 
 func one(w *ev.W, a apiFn, msg []byte, kind string, off int, mag uint32, ms *runtime.MemStats, bad map[string]bool) {
 	n := uint64(len(msg))
-	if mag == 1<<31-1 && !bad[a.name+"|"+kind] {
+	if mag > survivable && !bad[a.name+"|"+kind] {
 		// probe the same window at 2^24 first: a class that already exceeds
 		// the bound there is not escalated (it would only kill the worker)
 		probe := append([]byte{}, msg...)
@@ -398,7 +422,7 @@ func one(w *ev.W, a apiFn, msg []byte, kind string, off int, mag uint32, ms *run
 			}
 		}
 	}
-	if mag == 1<<31-1 && bad[a.name+"|"+kind] {
+	if mag > survivable && bad[a.name+"|"+kind] {
 		w.Count("escalations_skipped_for_already_violating_class", 1)
 		return
 	}
